@@ -131,6 +131,12 @@ def finder(ctx, nsessions, nsearch, thorough, engines):
         return fd.run_session(engines[tuple(ses["net"])], ses, per_search_timeout=ctx.scale(60.0, 300.0))
     with ThreadPoolExecutor(max_workers=NCPU) as ex:
         results = list(ex.map(one, sessions))
+    # an engine that did not answer in time is re-run alone (a loaded machine must not look like a hang/crash)
+    for k, (ses, res) in enumerate(zip(sessions, results)):
+        if any(r["status"] != "ok" for r in res):
+            ctx.count("finder_sessions_rerun_after_timeout_or_crash")
+            ctx.count("finder_first_run_status_" + [r["status"] for r in res if r["status"] != "ok"][0].replace(" ", "_"))
+            results[k] = fd.run_session(engines[tuple(ses["net"])], ses, per_search_timeout=ctx.scale(180.0, 600.0))
     ctx.log("finder: %d sessions run in %.1fs" % (len(sessions), time.time() - t0))
     found = []
     for ses, res in zip(sessions, results):
@@ -193,10 +199,17 @@ def finder(ctx, nsessions, nsearch, thorough, engines):
 
 
 def report_found(ctx, found, engines):
-    done_keys = set()
+    if not hasattr(ctx, "c03_seen_keys"):
+        ctx.c03_seen_keys = set()
+    done_keys = ctx.c03_seen_keys
     budget = 6
+    per_kind = {}
     for ses, i, v, lines in found:
         step = ses["steps"][i]
+        per_kind[v[0]] = per_kind.get(v[0], 0) + 1
+        ctx.count("finder_violation_" + v[0])
+        if per_kind[v[0]] > 2:          # at most two replays per kind of violation; all are counted
+            continue
         exe = engines[tuple(ses["net"])]
         kkey = fd.classify_known(step, v, ses["steps"][:i])
         if kkey and kkey in done_keys:
@@ -574,15 +587,21 @@ def run(ctx):
     # (5) trace correspondence (needs the optional hook)
     trace_dis = trace_correspond(ctx, engines, ml) if (not proof_broken or corr_note is None) and corr_note is None else []
     # (F) finder: always
+    nviol0 = len(ctx.violations)
     found = finder(ctx, ctx.scale(40, 1000), 5, thorough, engines)
     report_found(ctx, found, engines)
-    concrete = len(found)
+    concrete = len(ctx.violations) - nviol0          # new (not known) concrete failing inputs
     # classify correspondence disagreements
     corr_broken = False
     first_dis = None
+    seen_keys = getattr(ctx, "c03_seen_keys", set())
     for d in dis + trace_dis:
         kind, cmd, hout, mout, note = d[:5]
         if note == KNOWN_PONDER_KEY:
+            ctx.count("corr_start_ponder_uses_stale_searchmoves")
+            if KNOWN_PONDER_KEY in seen_keys:
+                continue
+            seen_keys.add(KNOWN_PONDER_KEY)
             ctx.violation("startPonder searches with stale searchmoves: moves handed to the search differ from legal ∩ requested",
                           {"harness_commands": [d[5], cmd] if len(d) > 5 and d[5] else [cmd], "harness": hout, "model": mout},
                           key=KNOWN_PONDER_KEY)
@@ -601,9 +620,10 @@ def run(ctx):
         return
     if proof_broken or corr_broken:
         # finder pass aimed at the broken part: more volume on the same grid
+        nviol1 = len(ctx.violations)
         extra = finder(ctx, ctx.scale(32, 300), 5, thorough, engines)
         report_found(ctx, extra, engines)
-        concrete += len(extra)
+        concrete += len(ctx.violations) - nviol1
     if True:
         what = []
         if proof_broken:
